@@ -94,23 +94,30 @@ def attrNillable (classes : List Cls) (owner : Cls) (a : Attr) : Bool :=
   a.types.any (fun t => !t.native && classes.any (fun c => c.qname = t.qname && c.nillable))
   || (a.tag = .simpleType && owner.nillable)
 
+/-- the field generated for attr `a` of the reduced class `owner`, given its final sequence number.
+`SanitizeAttributesDefaultValue`: an element or text of python type `object` that is no list is made
+optional; a text node of python type `str` gets the default "" -/
+def mkField (classes : List Cls) (owner : Cls) (a : Attr) (sq : Option Nat) : Field :=
+  let s := calcPath a
+  let isList := s.max > 1
+  let hasObject := a.types.any (fun t => t.native && (t.qname = Tables.dtAnySimpleType || t.qname = Tables.dtAnyType))
+  let hasStr := a.types.any (fun t => t.native && t.qname = Tables.dtString)
+  let min' := if a.tag ≠ .attribute && hasObject && !isList then 0 else s.min
+  { tag := a.tag, name := a.name, ns := a.ns, isList,
+    hasDefault := isList || min' = 0 || (a.tag = .simpleType && hasStr),
+    nillable := attrNillable classes owner a,
+    minOccurs := if isList && s.min > 0 then some s.min else none,
+    maxOccurs := if isList && s.max < maxsize then some s.max else none,
+    sequence := sq }
+
+/-- the sequence numbers the attrs of a class end up with (the two sequence handlers only touch
+`restrictions.sequence`) -/
+def finalSequences (attrs : List Attr) : List (Option Nat) :=
+  (renumberSequences (resetSequences (attrs.map calcPath))).map (·.sequence)
+
 /-- the fields of the class generated for the reduced class `owner`; `none` for a mixed class -/
 def classFields (classes : List Cls) (owner : Cls) : Option (List Field) :=
-  if owner.mixed then none else
-  let sites := renumberSequences (resetSequences (owner.attrs.map calcPath))
-  some <| (owner.attrs.zip sites).map fun (a, s) =>
-    let isList := s.max > 1
-    let nil := attrNillable classes owner a
-    -- `SanitizeAttributesDefaultValue`: an element or text of python type `object` that is no list is
-    -- made optional; a text node of python type `str` gets the default ""
-    let hasObject := a.types.any (fun t => t.native && (t.qname = Tables.dtAnySimpleType || t.qname = Tables.dtAnyType))
-    let hasStr := a.types.any (fun t => t.native && t.qname = Tables.dtString)
-    let min' := if a.tag ≠ .attribute && hasObject && !isList then 0 else s.min
-    { tag := a.tag, name := a.name, ns := a.ns, isList,
-      hasDefault := isList || min' = 0 || (a.tag = .simpleType && hasStr),
-      nillable := nil,
-      minOccurs := if isList && s.min > 0 then some s.min else none,
-      maxOccurs := if isList && s.max < maxsize then some s.max else none,
-      sequence := s.sequence }
+  if owner.mixed then none
+  else some ((owner.attrs.zip (finalSequences owner.attrs)).map fun (a, sq) => mkField classes owner a sq)
 
 end Xs.Samples
